@@ -278,6 +278,7 @@ type Analysis struct {
 	inScope func(*ssa.Function) bool
 	bySig   map[string][]*ssa.Function // address-taken functions by signature
 	boundOf map[*ssa.Function]bool     // candidate entered through a bound method value
+	scratch map[string]bool            // scratch type (see scratchTypes) → verified call-local
 }
 
 func sigKey(sig *types.Signature) string {
@@ -762,6 +763,118 @@ var balancedPairs = map[string]string{
 	"(*ogen/gen/ir.walkpath).add":           "(*ogen/gen/ir.walkpath).delete",        // recursion walk path: `path.add(t); defer path.delete(t)`
 }
 
+// scratchTypes: struct types that only ever live for the duration of one call tree — allocated by a function as a
+// local, handed down as a receiver / argument / closure capture, never stored into anything that outlives the call and
+// never returned. Writes through their methods are bookkeeping of that call tree, not effects of the functions that
+// make them. The property is not taken on trust: verifyScratch checks it on the loaded program, and when it does not
+// hold the methods are analysed like any other call.
+var scratchTypes = map[string]string{
+	"ogen/gen/ir.walkpath": "visited / current-path / done sets of one NeedValidation or RecursiveTo walk (`&walkpath{}` in the exported entry point)",
+}
+
+func scratchTypeOf(t types.Type) string {
+	if p, ok := t.Underlying().(*types.Pointer); ok {
+		t = p.Elem()
+	}
+	n, ok := types.Unalias(t).(*types.Named)
+	if !ok || n.Obj().Pkg() == nil {
+		return ""
+	}
+	if !core.InModulePath(n.Obj().Pkg().Path()) {
+		return ""
+	}
+	name := "ogen" + strings.TrimPrefix(n.Obj().Pkg().Path(), core.Module) + "." + n.Obj().Name()
+	if _, ok := scratchTypes[name]; ok {
+		return name
+	}
+	return ""
+}
+
+// verifyScratch: no value of pointer-to-scratch type is stored into non-local memory, put into an interface, a map, a
+// slice or a channel, or returned, anywhere in the program.
+func (a *Analysis) verifyScratch() {
+	a.scratch = map[string]bool{}
+	for name := range scratchTypes {
+		a.scratch[name] = true
+	}
+	for fn := range ssautilAll(a.Prog) {
+		for _, b := range fn.Blocks {
+			for _, in := range b.Instrs {
+				escape := func(v ssa.Value) {
+					if v == nil {
+						return
+					}
+					if name := scratchTypeOf(v.Type()); name != "" {
+						if _, isPtr := v.Type().Underlying().(*types.Pointer); isPtr {
+							a.scratch[name] = false
+						}
+					}
+				}
+				switch x := in.(type) {
+				case *ssa.Store:
+					if _, local := x.Addr.(*ssa.Alloc); !local {
+						escape(x.Val)
+					}
+				case *ssa.Return:
+					for _, r := range x.Results {
+						escape(r)
+					}
+				case *ssa.MakeInterface:
+					escape(x.X)
+				case *ssa.MapUpdate:
+					escape(x.Key)
+					escape(x.Value)
+				case *ssa.Send:
+					escape(x.X)
+				case *ssa.Go:
+					for _, arg := range x.Common().Args {
+						escape(arg)
+					}
+				}
+			}
+		}
+	}
+}
+
+func ssautilAll(prog *core.Prog) map[*ssa.Function]bool {
+	out := map[*ssa.Function]bool{}
+	var add func(f *ssa.Function)
+	add = func(f *ssa.Function) {
+		if f == nil || out[f] || f.Blocks == nil {
+			return
+		}
+		out[f] = true
+		for _, an := range f.AnonFuncs {
+			add(an)
+		}
+	}
+	for _, p := range prog.SSA.AllPackages() {
+		if p.Pkg == nil || !core.InModulePath(p.Pkg.Path()) {
+			continue
+		}
+		for _, f := range core.PkgFuncs(prog.SSA, p) {
+			add(f)
+		}
+	}
+	return out
+}
+
+// scratchMethod: the call is a method call on a verified scratch object.
+func (a *Analysis) scratchMethod(call ssa.CallInstruction) bool {
+	g := call.Common().StaticCallee()
+	if g == nil || g.Signature.Recv() == nil {
+		return false
+	}
+	name := scratchTypeOf(g.Signature.Recv().Type())
+	if name == "" {
+		return false
+	}
+	if a.scratch == nil {
+		a.verifyScratch()
+	}
+	return a.scratch[name]
+}
+
 func callsNamed(f *ssa.Function, name string, deferredOnly bool) bool {
 	for _, b := range f.Blocks {
 		for _, in := range b.Instrs {
@@ -819,7 +932,7 @@ func (a *Analysis) step(f *ssa.Function) bool {
 	changed := false
 	for _, b := range f.Blocks {
 		for _, in := range b.Instrs {
-			if call, ok := in.(ssa.CallInstruction); ok && balanced(f, call) {
+			if call, ok := in.(ssa.CallInstruction); ok && (balanced(f, call) || a.scratchMethod(call)) {
 				continue
 			}
 			switch x := in.(type) {
